@@ -122,6 +122,35 @@ class Types:
             pass
         return UNK
 
+    # ---- module-level constants ---------------------------------------------------------------
+    def const_type(self, module: str, name: str) -> T:
+        """Type of a module-level constant (following `from rnapolis.x import NAME`), inferred from its defining expression in
+        its own module: literals, constructor calls such as frozenset("ACGU"), comprehensions, set algebra on other constants."""
+        try:
+            hm, hn = self.repo.const_home(module, name)
+            mod = self.repo.modules[hm]
+            if hn not in mod.consts:
+                return UNK
+        except Exception:
+            return UNK
+        key = ("<const>", hm + "." + hn)
+        if key in self._ret:
+            return self._ret[key]
+        if key in self._busy:
+            return UNK
+        self._busy.add(key)
+        try:
+            fake = ast.FunctionDef(name="<module>", args=ast.arguments(posonlyargs=[], args=[], vararg=None, kwonlyargs=[], kw_defaults=[], kwarg=None, defaults=[]), body=[ast.Pass()], decorator_list=[], returns=None, lineno=1, col_offset=0)
+            ft = FuncTypes(self, FuncInfo(mod, "<module>", fake, None))
+            e = mod.consts[hn]
+            t = ft._refine(e, ft.of(e))
+        except Exception:
+            t = UNK
+        finally:
+            self._busy.discard(key)
+        self._ret[key] = t
+        return t
+
     # ---- class members ------------------------------------------------------------------
     def member(self, ct: T, attr: str) -> T:
         if not (isinstance(ct, tuple) and ct[0] == "cls"):
@@ -367,7 +396,7 @@ class FuncTypes:
                 return "bool"
             if self._fix and astq.assignments(self.fi.node, e.id):
                 return None  # bound later in the fixpoint iteration
-            return UNK
+            return self.ty.const_type(self.fi.module.name, e.id)
         if isinstance(e, ast.Tuple):
             return ("tuple", tuple(self.of(x) for x in e.elts))
         if isinstance(e, ast.List):
